@@ -77,3 +77,20 @@ def run(ck):
             }.get(kind, "mismatch")
             ck.violation({"kind": "c18-" + kind, "case": c if len(c) < 20000 else c[:20000] + "...", "expected_model": b[:4000],
                           "observed": a[:4000], "how": what})
+    # PSV0 resource table against the caller's binding map (dxil.Options.BindingMap)
+    out = ck.harness("c18res", {"quick": 150, "thorough": 4000}.get(ck.tier, 150))
+    if out is None or not os.path.exists(os.path.join(out, "cases.txt")):
+        return
+    if not ck.run_driver(["c18"], os.path.join(out, "cases.txt"), os.path.join(out, "model.txt")):
+        return
+    want = common.read_lines(os.path.join(out, "impl.txt"))
+    got = common.read_lines(os.path.join(out, "model.txt"))
+    srcs = common.read_lines(os.path.join(out, "src.txt"))
+    shown = False
+    for w, g, s in zip(want, got, srcs):
+        ck.case("psvres" + s, nontrivial=True)
+        if w != g and not shown:
+            shown = True
+            ck.violation({"kind": "c18-psv-resource-binding", "wgsl_and_binding_map": s[:3000], "expected_space_register_pairs": w, "psv0_records": g,
+                          "how": "the PSV0 resource table of a real dxil.Compile output (read by the Lean model of the part) does not record every "
+                                 "resource at the (space, register) the caller's BindingMap / the WGSL attributes prescribe"})
